@@ -737,3 +737,10 @@ func killSelf() {
 	syscall.Kill(os.Getpid(), syscall.SIGKILL)
 	select {}
 }
+
+func hexDecode(s string) ([]byte, error) {
+	if s == "." {
+		return []byte{}, nil
+	}
+	return hex.DecodeString(s)
+}
